@@ -412,7 +412,9 @@ def encode_case(out, compare_searches=True):
           'x_treat := []; x_control := []; x_count := 0%Z; x_within := []; x_exh := None; x_greedy := None |}')
     return '(%s, %s)' % (sc, sx)
   n = out['n']
-  pairs = out['pairs']
+  pairs = out.get('pairs') or []
+  if 'shareS' not in out:
+    out = dict(out, shareS=[], optB=[])
   kernel_error = any(isinstance(e, str) for e in pairs) or any(isinstance(v, str) for v in out['optB'])
   vals5 = [0.0] + [e[1][4] for e in pairs if not isinstance(e, str)] + [e[2][4] for e in pairs if not isinstance(e, str)]
   vals6 = [0.0] + [e[1][5] for e in pairs if not isinstance(e, str)] + [e[2][5] for e in pairs if not isinstance(e, str)]
@@ -433,7 +435,8 @@ def encode_case(out, compare_searches=True):
   sc = ('{| sc_gs := %s; sc_par := %s; sc_share := [%s]; sc_opt := [%s]; sc_pairs := [%s] |}' % (
       gs, par_term(par), '; '.join(flit(v) for v in out['shareS']),
       '; '.join(flit(v) if not isinstance(v, str) else 'nan' for v in out['optB']), '; '.join(ents)))
-  comp = out['components']
+  comp = out.get('components') or {'tsize_range': 'skip', 'csizes': {}, 'treat_groups': {}, 'control_groups': {},
+                                    'count': 'skip', 'within': {}}
   zl = lambda l: '[' + '; '.join('%d%%Z' % v for v in l) + ']'
   osets = lambda v: 'None' if isinstance(v, str) else '(Some %s)' % set_list(v)
   x_csizes = '[' + '; '.join('(%d%%Z, %s)' % (int(k), zl(v)) for k, v in comp['csizes'].items() if not isinstance(v, str)) + ']'
@@ -448,7 +451,7 @@ def encode_case(out, compare_searches=True):
     C = [i for i in range(n) if (k // 3 ** i) % 3 == 2]
     if isinstance(v, bool):
       x_within.append('(%s, %s, %s)' % (nat_list(T), nat_list(C), 'true' if v else 'false'))
-  ties = has_ties(out)
+  ties = has_ties(out) if pairs else True
 
   def designs(res):
     if not compare_searches or res is None or res.get('outcome') != 'ok' or ties or kernel_error:
